@@ -35,7 +35,24 @@ type Base struct {
 	failAt  int // 1-based index (within the current plan) of the write that fails; 0 = none
 	mode    Mode
 	counter int
+	parkAt  int           // 1-based index of the write that blocks until Release; 0 = none
+	parked  chan struct{} // signalled when the write is parked
+	release chan struct{}
 }
+
+// PlanPark makes the n-th write from now on block (before it is applied) until Release is called; clears the log.
+func (b *Base) PlanPark(n int) {
+	b.mu.Lock()
+	defer b.mu.Unlock()
+	b.failAt, b.mode, b.counter, b.Log = 0, None, 0, nil
+	b.parkAt, b.parked, b.release = n, make(chan struct{}, 1), make(chan struct{}, 1)
+}
+
+// Parked is signalled once the planned write is blocked.
+func (b *Base) Parked() <-chan struct{} { return b.parked }
+
+// Release lets the parked write continue.
+func (b *Base) Release() { b.release <- struct{}{} }
 
 func New() *Base { return &Base{Inner: kv.NewMemoryKV()} }
 
@@ -54,7 +71,7 @@ func (b *Base) Take() []Write {
 	b.mu.Lock()
 	defer b.mu.Unlock()
 	l := b.Log
-	b.Log, b.failAt, b.mode, b.counter = nil, 0, None, 0
+	b.Log, b.failAt, b.mode, b.counter, b.parkAt = nil, 0, None, 0, 0
 	return l
 }
 
@@ -72,7 +89,13 @@ func (b *Base) write(w Write) error {
 	}
 	w.Failed = m
 	b.Log = append(b.Log, w)
+	park := b.parkAt != 0 && b.counter == b.parkAt
+	parked, release := b.parked, b.release
 	b.mu.Unlock()
+	if park {
+		parked <- struct{}{}
+		<-release
+	}
 	if m == FailBefore {
 		return ErrInjected
 	}
